@@ -314,6 +314,12 @@ func (c *client) do(req *http.Request, okStatuses ...int) (*http.Response, error
 	if err != nil {
 		return nil, fmt.Errorf("cannot do HTTP request: %w", err)
 	}
+	if resp.Request == nil {
+		// The method and URL of the request are needed to interpret the
+		// response (HEAD errors, relative Location and Link values),
+		// but a custom Transport is not obliged to fill this in.
+		resp.Request = req
+	}
 	if debug {
 		buf.Reset()
 		fmt.Fprintf(&buf, "} -> %s {\n", resp.Status)
